@@ -615,7 +615,7 @@ def main(tier, replay=None):
     if not cases:
         for f, n, d in DIRECTED:
             cases.append((f, n, d, "directed"))
-        per = 260 if tier == "quick" else 30000
+        per = 260 if tier == "quick" else 20000
         N, D = (7, 3) if tier == "quick" else (130, 20)
         for f in sorted(F):
             kind, nt, dt, ret = F[f]
@@ -631,7 +631,7 @@ def main(tier, replay=None):
                     v = fix_type(v, nt)
                     if clampfit(v, nt):
                         cases.append((f, v, 1, "conversion: limits (exhaustive)"))
-                for i in range(150 if tier == "quick" else 20000):
+                for i in range(150 if tier == "quick" else 10000):
                     cases.append((f, rand_val(rng, nt), 1, "conversion: random"))
                 continue
             # the word limits (2^7 .. 2^64+1, +-1 around them) of divisor and remainder: the same list in every run
